@@ -72,6 +72,7 @@ class C19(Check):
 
     def prepare(self):
         from .. import harness  # noqa: F401
+        opstub.init_session("c19")
         import admin.ledger_utils as LU
         import signapp
         import signonetime
